@@ -1,0 +1,32 @@
+//go:build verif
+// +build verif
+
+package spg
+
+import "sort"
+
+// Verification hooks, compiled only with the "verif" build tag.
+
+// VerifDrawHook, when set, is told the bound of every bounded draw just
+// before the draw reads from the random source.
+var VerifDrawHook func(n uint32)
+
+// VerifCanonHook, when set, is told the size of the alphabet each time
+// Generate has built (and canonically ordered) it.
+var VerifCanonHook func(size int)
+
+// verifCanon puts the alphabet into a canonical (sorted) order so that the
+// generated password is a deterministic function of the random stream.
+func verifCanon(c charList) charList {
+	sort.Strings(c)
+	if VerifCanonHook != nil {
+		VerifCanonHook(len(c))
+	}
+	return c
+}
+
+func verifDraw(n uint32) {
+	if VerifDrawHook != nil {
+		VerifDrawHook(n)
+	}
+}
